@@ -51,6 +51,9 @@ class Collection(NadaType):
     right_type: AllTypesType
     contained_type: AllTypesType
 
+    def __eq__(self, other):
+        raise NotImplementedError("Nada collections cannot be compared with == or !=")
+
     def to_mir(self):
         """Convert operation wrapper to a dictionary representing its type."""
         if isinstance(self, (Array, ArrayType)):
